@@ -5,9 +5,12 @@ C20 — when does the binary64 evaluation of `int(math.ceil((sample_rate * delay
 (`delaySamplesF_eq_of_margin`).  Uses the `rn53` lemmas of `Proofs/C16Ieee.lean` (Mathlib).
 This module imports `Props/C20.lean` and is the module the harness audits (`props_module`), so that
 `Props/C20.lean` itself (imported by `Props/C02.lean`, `Props/C06.lean`) stays free of Mathlib.
+Second part: the cases the margin theorem leaves out — delay 0 (`delaySamplesF_zero`), exact half samples
+(`delaySamplesF_tie`) — and delays written with five decimals at 44.1/48/96 kHz (`five_decimal_delay_exact`).
 -/
 import Earverif.Proofs.C16Ieee
 import Earverif.Props.C20
+import Earverif.Proofs.C20Driver
 
 namespace Earverif.TrackSpec
 open Earverif.Ieee
@@ -221,5 +224,310 @@ example : ∀ m : Int, (48000 : Rat) * (1 / 64) / 1000 * (2 : Rat) ^ (-50 : Int)
   · have : (1 : Rat) ≤ m := by exact_mod_cast h
     rw [abs_of_neg (by linarith)]; linarith
 
+
+/-! ## outside the margin theorem: delay 0, exact ties; five-decimal delays -/
+
+/-- a dyadic rational `n·2^s` with `0 < n < 2^53` is a binary64 number (unbounded exponent) -/
+theorem rn53_dyadic (n s : ℤ) (h0 : 0 < n) (hn : (n : ℚ) < (2 : ℚ) ^ (53 : ℤ)) :
+    rn53 ((n : ℚ) * (2 : ℚ) ^ s) = (n : ℚ) * (2 : ℚ) ^ s := by
+  have hp : (0 : ℚ) < (n : ℚ) * (2 : ℚ) ^ s := mul_pos (by exact_mod_cast h0) (two_zpow_pos s)
+  obtain ⟨s1, s2⟩ := ilog2_spec _ hp
+  have he : ilog2 ((n : ℚ) * (2 : ℚ) ^ s) ≤ 52 + s := by
+    have h : (2 : ℚ) ^ ilog2 ((n : ℚ) * (2 : ℚ) ^ s) < (2 : ℚ) ^ (53 + s) := by
+      rw [zpow_add₀ (by norm_num : (2 : ℚ) ≠ 0)]
+      exact lt_of_le_of_lt s1 (mul_lt_mul_of_pos_right hn (two_zpow_pos s))
+    have := (zpow_lt_zpow_iff_right₀ (by norm_num : (1 : ℚ) < 2)).mp h
+    omega
+  rw [rn53_pos _ _ s1 s2]
+  generalize ilog2 ((n : ℚ) * (2 : ℚ) ^ s) = e at *
+  have grid : ((n * (2 : ℤ) ^ (52 + s - e).toNat : ℤ) : ℚ) * (2 : ℚ) ^ (e - 52) = (n : ℚ) * (2 : ℚ) ^ s := by
+    push_cast
+    rw [← zpow_natCast, Int.toNat_of_nonneg (by omega), mul_assoc, ← zpow_add₀ (by norm_num)]
+    congr 2; ring
+  apply le_antisymm
+  · have := rnAt_le e ((n : ℚ) * (2 : ℚ) ^ s) (n * (2 : ℤ) ^ (52 + s - e).toNat) (by rw [grid])
+    rwa [grid] at this
+  · have := rnAt_ge e ((n : ℚ) * (2 : ℚ) ^ s) (n * (2 : ℤ) ^ (52 + s - e).toNat) (by rw [grid])
+    rwa [grid] at this
+
+theorem rn53_neg_half : rn53 (-(1 / 2 : ℚ)) = -(1 / 2) := by
+  rw [rn53_neg]
+  have := rn53_dyadic 1 (-1) (by norm_num) (by norm_num)
+  have e : ((1 : ℤ) : ℚ) * (2 : ℚ) ^ (-1 : ℤ) = 1 / 2 := by norm_num
+  rw [e] at this; rw [this]
+
+/-- **delaySamplesF_zero.**  A coefficient delay of 0 ms gives 0 samples, in binary64 and exactly, at every
+sample rate (`delaySamplesF_eq_of_margin` needs `0 < ms`). -/
+theorem delaySamplesF_zero (fs : ℤ) : delaySamplesF fs 0 = 0 ∧ delaySamples fs 0 = 0 := by
+  have c : (-(1 / 2 : ℚ)).ceil = 0 := ceil_eq_of _ 0 (by norm_num) (by norm_num)
+  constructor
+  · unfold delaySamplesF
+    rw [mul_zero, rn53_zero, zero_div, rn53_zero, zero_sub, rn53_neg_half, c]
+  · unfold delaySamples
+    rw [mul_zero, zero_div, zero_sub, c]
+
+/-- **delaySamplesF_tie.**  An exact half sample `fs·ms/1000 = m + 1/2` (`m ≥ 0`, `500·(2m+1) < 2^53`,
+`0 < fs < 2^53`) is converted exactly by the code: every intermediate result (`fs·ms = 500·(2m+1)`,
+`m + 1/2`, `m`) is a binary64 number, and both conversions give the earlier sample `m`. -/
+theorem delaySamplesF_tie (fs : ℤ) (ms : ℚ) (m : ℤ) (hfs : 0 < fs) (hfs' : (fs : ℚ) < (2 : ℚ) ^ (53 : ℤ))
+    (hm0 : 0 ≤ m) (hm : ((500 * (2 * m + 1) : ℤ) : ℚ) < (2 : ℚ) ^ (53 : ℤ))
+    (hx : (fs : ℚ) * ms / 1000 = (m : ℚ) + 1 / 2) :
+    delaySamplesF fs ms = m ∧ delaySamples fs ms = m := by
+  have hc : ((m : ℚ)).ceil = m := ceil_eq_of _ m (by linarith) le_rfl
+  have hmq : (0 : ℚ) ≤ m := by exact_mod_cast hm0
+  have hprod : (fs : ℚ) * ms = ((500 * (2 * m + 1) : ℤ) : ℚ) := by
+    push_cast; linarith
+  have hm' : ((2 * m + 1 : ℤ) : ℚ) < (2 : ℚ) ^ (53 : ℤ) := by
+    push_cast at hm ⊢; linarith
+  have hm'' : (m : ℚ) < (2 : ℚ) ^ (53 : ℤ) := by push_cast at hm'; linarith
+  constructor
+  · unfold delaySamplesF
+    rw [rn53_int fs hfs hfs', hprod, rn53_int _ (by omega) hm]
+    have e : ((500 * (2 * m + 1) : ℤ) : ℚ) / 1000 = ((2 * m + 1 : ℤ) : ℚ) * (2 : ℚ) ^ (-1 : ℤ) := by
+      push_cast; norm_num; ring
+    rw [e, rn53_dyadic _ _ (by omega) hm']
+    have e2 : ((2 * m + 1 : ℤ) : ℚ) * (2 : ℚ) ^ (-1 : ℤ) - 1 / 2 = (m : ℚ) := by
+      push_cast; norm_num; ring
+    rw [e2]
+    rcases Int.lt_or_eq_of_le hm0 with h | h
+    · rw [rn53_int m h hm'', hc]
+    · subst h; simp [rn53_zero]; exact ceil_eq_of _ 0 (by norm_num) (by norm_num)
+  · unfold delaySamples
+    rw [hx]
+    have : (m : ℚ) + 1 / 2 - 1 / 2 = m := by ring
+    rw [this, hc]
+
+/-- 0.03125 ms at 48 kHz = 1.5 samples, 0.15625 ms = 7.5 samples, 5 ms at 44.1 kHz = 220.5 samples -/
+example : (((48000 : ℤ) : ℚ) * (1 / 32) / 1000 = ((1 : ℤ) : ℚ) + 1 / 2) ∧
+    (((48000 : ℤ) : ℚ) * (5 / 32) / 1000 = ((7 : ℤ) : ℚ) + 1 / 2) ∧
+    (((44100 : ℤ) : ℚ) * 5 / 1000 = ((220 : ℤ) : ℚ) + 1 / 2) := by norm_num
+
+theorem two_pow_53 : (2 : ℚ) ^ (53 : ℤ) = 9007199254740992 := by
+  rw [show (53 : ℤ) = (53 : ℕ) by norm_num, zpow_natCast]; norm_num
+
+theorem two_pow_52 : (2 : ℚ) ^ (52 : ℤ) = 4503599627370496 := by
+  rw [show (52 : ℤ) = (52 : ℕ) by norm_num, zpow_natCast]; norm_num
+
+/-- **delaySamplesF_decimal_nontie.**  A delay written with five decimals, `k/10^5` ms (`k > 0`), read as
+the nearest binary64 number `ms = rn53 (k/10^5)`, at a sample rate with `fs·k ≤ 10^14` (at most `10^6`
+samples of delay) whose exact value in samples `fs·k/10^8` is not a half-integer: the code's binary64
+conversion gives the nearest sample of `ms`, which is also the nearest sample of the decimal `k/10^5`. -/
+theorem delaySamplesF_decimal_nontie (fs : ℤ) (k : ℕ) (hfs : 0 < fs) (hk : 0 < k)
+    (hb : fs * k ≤ 10 ^ 14) (hnt : ∀ m : ℤ, 2 * fs * k ≠ 10 ^ 8 * (2 * m + 1)) :
+    delaySamplesF fs (rn53 ((k : ℚ) / 10 ^ 5)) = delaySamples fs (rn53 ((k : ℚ) / 10 ^ 5)) ∧
+    delaySamples fs (rn53 ((k : ℚ) / 10 ^ 5)) = delaySamples fs ((k : ℚ) / 10 ^ 5) := by
+  have hfsq : (0 : ℚ) < fs := by exact_mod_cast hfs
+  have hkq : (0 : ℚ) < k := by exact_mod_cast hk
+  have hbq : (fs : ℚ) * k ≤ 10 ^ 14 := by exact_mod_cast hb
+  have hfs53 : (fs : ℚ) < (2 : ℚ) ^ (53 : ℤ) := by
+    rw [two_pow_53]
+    have : (1 : ℚ) ≤ k := by exact_mod_cast hk
+    nlinarith
+  have hd : (0 : ℚ) < (k : ℚ) / 10 ^ 5 := by positivity
+  have hrel := rn53_rel _ hd
+  -- distance of the exact decimal value from every half sample
+  have hdist : ∀ m : ℤ, 1 / (2 * 10 ^ 8 : ℚ) ≤ |(fs : ℚ) * ((k : ℚ) / 10 ^ 5) / 1000 - ((m : ℚ) + 1 / 2)| := by
+    intro m
+    have hne : (2 * fs * k - 10 ^ 8 * (2 * m + 1) : ℤ) ≠ 0 := sub_ne_zero.mpr (hnt m)
+    have h1 : (1 : ℚ) ≤ |((2 * fs * k - 10 ^ 8 * (2 * m + 1) : ℤ) : ℚ)| := by
+      exact_mod_cast Int.one_le_abs hne
+    have e : (fs : ℚ) * ((k : ℚ) / 10 ^ 5) / 1000 - ((m : ℚ) + 1 / 2) =
+        ((2 * fs * k - 10 ^ 8 * (2 * m + 1) : ℤ) : ℚ) / (2 * 10 ^ 8) := by
+      push_cast; ring
+    rw [e, abs_div, abs_of_pos (by norm_num : (0 : ℚ) < 2 * 10 ^ 8)]
+    exact div_le_div_of_nonneg_right h1 (by norm_num)
+  have hu : (2 : ℚ) ^ (-53 : ℤ) < 12 / 10 ^ 17 := by
+    rw [show (-53 : ℤ) = -(53 : ℕ) by norm_num, zpow_neg, zpow_natCast]; norm_num
+  have hu0 : (0 : ℚ) < (2 : ℚ) ^ (-53 : ℤ) := two_zpow_pos _
+  have h50 : (2 : ℚ) ^ (-50 : ℤ) = 8 * (2 : ℚ) ^ (-53 : ℤ) := by
+    rw [show (-50 : ℤ) = -(50 : ℕ) by norm_num, show (-53 : ℤ) = -(53 : ℕ) by norm_num, zpow_neg, zpow_neg,
+      zpow_natCast, zpow_natCast]; norm_num
+  generalize (2 : ℚ) ^ (-53 : ℤ) = u at *
+  generalize hms : rn53 ((k : ℚ) / 10 ^ 5) = ms at *
+  -- x = exact samples of the decimal, x' = exact samples of the double
+  have hxx : |(fs : ℚ) * ms / 1000 - (fs : ℚ) * ((k : ℚ) / 10 ^ 5) / 1000| ≤
+      (fs : ℚ) * ((k : ℚ) / 10 ^ 5) / 1000 * u := by
+    have e : (fs : ℚ) * ms / 1000 - (fs : ℚ) * ((k : ℚ) / 10 ^ 5) / 1000 =
+        (fs : ℚ) / 1000 * (ms - (k : ℚ) / 10 ^ 5) := by ring
+    rw [e, abs_mul, abs_of_pos (by positivity : (0 : ℚ) < (fs : ℚ) / 1000)]
+    calc (fs : ℚ) / 1000 * |ms - (k : ℚ) / 10 ^ 5| ≤ (fs : ℚ) / 1000 * ((k : ℚ) / 10 ^ 5 * u) :=
+          mul_le_mul_of_nonneg_left hrel (by positivity)
+      _ = _ := by ring
+  have hx0 : 0 < (fs : ℚ) * ((k : ℚ) / 10 ^ 5) / 1000 := by positivity
+  have hx6 : (fs : ℚ) * ((k : ℚ) / 10 ^ 5) / 1000 ≤ 10 ^ 6 := by
+    have e : (fs : ℚ) * ((k : ℚ) / 10 ^ 5) / 1000 = (fs : ℚ) * k / 10 ^ 8 := by ring
+    rw [e, div_le_iff₀ (by norm_num)]; linarith
+  have hms0 : 0 < ms := by
+    rw [abs_le] at hrel
+    have : (k : ℚ) / 10 ^ 5 * u < (k : ℚ) / 10 ^ 5 := mul_lt_of_lt_one_right hd (by linarith)
+    linarith [hrel.1]
+  generalize hxdef : (fs : ℚ) * ((k : ℚ) / 10 ^ 5) / 1000 = x at *
+  have hw : x * u < 12 / 10 ^ 11 := by
+    calc x * u ≤ 10 ^ 6 * u := mul_le_mul_of_nonneg_right hx6 hu0.le
+      _ < 10 ^ 6 * (12 / 10 ^ 17) := mul_lt_mul_of_pos_left hu (by norm_num)
+      _ = 12 / 10 ^ 11 := by norm_num
+  have hwu : x * u * u < x * u / 8 := by
+    have : u < 1 / 8 := by linarith
+    have := mul_lt_mul_of_pos_left this (mul_pos hx0 hu0); linarith
+  have hxw0 : 0 < x * u := mul_pos hx0 hu0
+  have hxxu := abs_le.mp hxx
+  have hfar : ∀ m : ℤ, 1 / (2 * 10 ^ 8 : ℚ) - x * u ≤ |(fs : ℚ) * ms / 1000 - ((m : ℚ) + 1 / 2)| := by
+    intro m
+    have t := abs_sub_le x ((fs : ℚ) * ms / 1000) ((m : ℚ) + 1 / 2)
+    rw [abs_sub_comm x ((fs : ℚ) * ms / 1000)] at t
+    linarith [hdist m]
+  constructor
+  · apply delaySamplesF_eq_of_margin fs ms hfs hfs53 hms0
+    · rw [two_pow_52]; linarith [hxxu.2]
+    · intro m
+      rw [h50]
+      have : (fs : ℚ) * ms / 1000 * (8 * u) ≤ 8 * (x * u) + 8 * (x * u * u) := by
+        have : (fs : ℚ) * ms / 1000 ≤ x + x * u := by linarith [hxxu.2]
+        calc (fs : ℚ) * ms / 1000 * (8 * u) ≤ (x + x * u) * (8 * u) :=
+              mul_le_mul_of_nonneg_right this (by linarith)
+          _ = _ := by ring
+      have h5 : (1 : ℚ) / (2 * 10 ^ 8) = 5 / 10 ^ 9 := by norm_num
+      linarith [hfar m]
+  · apply delay_rounding_unique
+    · rw [hxdef]
+      obtain ⟨a, -⟩ := delay_rounding fs ms
+      have a' : ((delaySamples fs ms : ℤ) : ℚ) - 1 / 2 < (fs : ℚ) * ms / 1000 := a
+      by_contra hc
+      have hc' := not_lt.mp hc
+      have e : ((delaySamples fs ms : ℤ) : ℚ) - 1 / 2 = ((delaySamples fs ms - 1 : ℤ) : ℚ) + 1 / 2 := by
+        push_cast; ring
+      have t := hdist (delaySamples fs ms - 1)
+      rw [← e, abs_of_nonpos (by linarith)] at t
+      have h5 : (1 : ℚ) / (2 * 10 ^ 8) = 5 / 10 ^ 9 := by norm_num
+      linarith [hxxu.2]
+    · rw [hxdef]
+      obtain ⟨-, b⟩ := delay_rounding fs ms
+      have b' : (fs : ℚ) * ms / 1000 ≤ ((delaySamples fs ms : ℤ) : ℚ) + 1 / 2 := b
+      by_contra hc
+      have hc' := not_le.mp hc
+      have t := hdist (delaySamples fs ms)
+      rw [abs_of_pos (by linarith)] at t
+      have h5 : (1 : ℚ) / (2 * 10 ^ 8) = 5 / 10 ^ 9 := by norm_num
+      linarith [hxxu.1]
+
+/-- at 48 kHz a five-decimal delay that is an exact half sample is a multiple of 1/32 ms -/
+theorem tie48 (k : ℕ) (m : ℤ) (hm : 2 * 48000 * (k : ℤ) = 10 ^ 8 * (2 * m + 1)) : ∃ t : ℕ, k = 3125 * t := by
+  have h3 : (3125 : ℤ) ∣ 3 * (k : ℤ) := ⟨2 * m + 1, by norm_num at hm; omega⟩
+  obtain ⟨t, ht⟩ := Int.dvd_of_dvd_mul_right_of_gcd_one h3 (by decide)
+  clear hm h3
+  exact ⟨t.toNat, by omega⟩
+
+/-- at 44.1 kHz a five-decimal delay that is an exact half sample is a multiple of 5 ms -/
+theorem tie44 (k : ℕ) (m : ℤ) (hm : 2 * 44100 * (k : ℤ) = 10 ^ 8 * (2 * m + 1)) : ∃ t : ℕ, k = 500000 * t := by
+  have h3 : (500000 : ℤ) ∣ 441 * (k : ℤ) := ⟨2 * m + 1, by norm_num at hm; omega⟩
+  obtain ⟨t, ht⟩ := Int.dvd_of_dvd_mul_right_of_gcd_one h3 (by decide)
+  clear hm h3
+  exact ⟨t.toNat, by omega⟩
+
+/-- at 96 kHz no five-decimal delay is an exact half sample -/
+theorem tie96 (k : ℕ) (m : ℤ) (hm : 2 * 96000 * (k : ℤ) = 10 ^ 8 * (2 * m + 1)) : False := by
+  norm_num at hm; omega
+
+/-- the tie case of a five-decimal delay whose value is itself a binary64 number -/
+theorem delaySamplesF_decimal_tie (fs : ℤ) (k : ℕ) (m : ℤ) (hfs : 0 < fs) (hk : 0 < k)
+    (hb : fs * k ≤ 10 ^ 14) (htie : 2 * fs * k = 10 ^ 8 * (2 * m + 1))
+    (hrep : rn53 ((k : ℚ) / 10 ^ 5) = (k : ℚ) / 10 ^ 5) :
+    delaySamplesF fs (rn53 ((k : ℚ) / 10 ^ 5)) = delaySamples fs (rn53 ((k : ℚ) / 10 ^ 5)) ∧
+    delaySamples fs (rn53 ((k : ℚ) / 10 ^ 5)) = delaySamples fs ((k : ℚ) / 10 ^ 5) := by
+  rw [hrep]
+  refine ⟨?_, rfl⟩
+  have hbq : (fs : ℚ) * k ≤ 10 ^ 14 := by exact_mod_cast hb
+  have hfs53 : (fs : ℚ) < (2 : ℚ) ^ (53 : ℤ) := by
+    rw [two_pow_53]
+    have : (1 : ℚ) ≤ k := by exact_mod_cast hk
+    have : (0 : ℚ) < fs := by exact_mod_cast hfs
+    nlinarith
+  have hx : (fs : ℚ) * ((k : ℚ) / 10 ^ 5) / 1000 = (m : ℚ) + 1 / 2 := by
+    have : ((2 * fs * k : ℤ) : ℚ) = ((10 ^ 8 * (2 * m + 1) : ℤ) : ℚ) := by rw [htie]
+    push_cast at this
+    field_simp
+    linarith
+  have hP0 : 0 < fs * (k : ℤ) := Int.mul_pos hfs (by exact_mod_cast hk)
+  rw [show 2 * fs * (k : ℤ) = 2 * (fs * k) by ring] at htie
+  generalize fs * (k : ℤ) = P at htie hb hP0
+  norm_num at htie hb
+  have hm0 : 0 ≤ m := by omega
+  have hm2 : 500 * (2 * m + 1) ≤ 1000000000 := by omega
+  have hm : ((500 * (2 * m + 1) : ℤ) : ℚ) < (2 : ℚ) ^ (53 : ℤ) := by
+    rw [two_pow_53]
+    have : ((500 * (2 * m + 1) : ℤ) : ℚ) ≤ ((1000000000 : ℤ) : ℚ) := by exact_mod_cast hm2
+    push_cast at this ⊢; linarith
+  obtain ⟨a, b⟩ := delaySamplesF_tie fs _ m hfs hfs53 hm0 hm hx
+  rw [a, b]
+
+/-- **five_decimal_delay_exact.**  DESIGN's "unreachable from five-decimal delays", as a theorem: at the
+sample rates 44100, 48000 and 96000, for every delay written with five decimals up to 10 s
+(`k/10^5` ms, `k ≤ 10^9`) and read as the nearest binary64 number `ms`, the code's binary64 conversion
+gives the nearest sample of `ms` (so the deviation of `float_delay_counterexample` cannot occur), and
+that is also the nearest sample of the decimal number `k/10^5` itself.  (Exact ties do occur among
+five-decimal delays — `k = 3125·t` at 48 kHz, `k = 500000·t` at 44.1 kHz, none at 96 kHz — but
+then `k/10^5` is a binary64 number and everything is computed exactly.) -/
+theorem five_decimal_delay_exact (fs : ℤ) (hfs : fs = 44100 ∨ fs = 48000 ∨ fs = 96000) (k : ℕ)
+    (hk : k ≤ 10 ^ 9) :
+    delaySamplesF fs (rn53 ((k : ℚ) / 10 ^ 5)) = delaySamples fs (rn53 ((k : ℚ) / 10 ^ 5)) ∧
+    delaySamples fs (rn53 ((k : ℚ) / 10 ^ 5)) = delaySamples fs ((k : ℚ) / 10 ^ 5) := by
+  rcases Nat.eq_zero_or_pos k with rfl | hk0
+  · simp only [Nat.cast_zero, zero_div, rn53_zero, (delaySamplesF_zero fs).1, (delaySamplesF_zero fs).2,
+      and_self]
+  have hkz : (k : ℤ) ≤ 1000000000 := by exact_mod_cast hk
+  have hb : fs * k ≤ 10 ^ 14 := by
+    rcases hfs with rfl | rfl | rfl <;> norm_num <;> linarith
+  have hfs0 : 0 < fs := by rcases hfs with rfl | rfl | rfl <;> norm_num
+  have hk53 : ∀ t : ℕ, t ≤ k → ((t : ℤ) : ℚ) < (2 : ℚ) ^ (53 : ℤ) := by
+    intro t ht
+    rw [two_pow_53]
+    have : ((t : ℤ) : ℚ) ≤ ((1000000000 : ℤ) : ℚ) := by
+      have : (t : ℤ) ≤ 1000000000 := by omega
+      exact_mod_cast this
+    push_cast at this ⊢; linarith
+  by_cases htie : ∃ m : ℤ, 2 * fs * k = 10 ^ 8 * (2 * m + 1)
+  · obtain ⟨m, hm⟩ := htie
+    apply delaySamplesF_decimal_tie fs k m hfs0 hk0 hb hm
+    clear hb hkz hk
+    rcases hfs with rfl | rfl | rfl
+    · -- 44100: k = 500000·t, the delay is the integer 5·t ms
+      obtain ⟨t, ht⟩ := tie44 k m hm
+      clear hm
+      have e : (k : ℚ) / 10 ^ 5 = (((5 * t : ℕ) : ℤ) : ℚ) := by rw [ht]; push_cast; ring
+      rw [e]
+      exact rn53_int _ (by omega) (hk53 _ (by omega))
+    · -- 48000: k = 3125·t, the delay is t/32 ms
+      obtain ⟨t, ht⟩ := tie48 k m hm
+      clear hm
+      have e : (k : ℚ) / 10 ^ 5 = ((t : ℤ) : ℚ) * (2 : ℚ) ^ (-5 : ℤ) := by
+        rw [ht, show (-5 : ℤ) = -(5 : ℕ) by norm_num, zpow_neg, zpow_natCast]; push_cast; ring
+      rw [e]
+      exact rn53_dyadic _ _ (by omega) (hk53 _ (by omega))
+    · -- 96000: 6·k = 3125·(2m+1) is impossible
+      exact (tie96 k m hm).elim
+  · exact delaySamplesF_decimal_nontie fs k hfs0 hk0 hb (fun m h => htie ⟨m, h⟩)
+
+/-- `five_decimal_delay_exact` as a statement about specs: a coefficient node whose delay is a five-decimal
+number of ms (≤ 10 s, read as a double) is float-exact at 44.1/48/96 kHz, so
+`processorF_eq_meaningStrict` / `driver_eq_meaningStrict` apply to every spec built from such nodes -/
+theorem floatExact_of_five_decimal {α : Type} (fs : Int) (hfs : fs = 44100 ∨ fs = 48000 ∨ fs = 96000)
+    (t : Spec α) (g : Option α) (k : Nat) (hk : k ≤ 10 ^ 9) (ht : t.floatExact fs = true) :
+    (Spec.matrix t g (some (rn53 ((k : Rat) / 10 ^ 5)))).floatExact fs = true := by
+  simp only [Spec.floatExact, ht, Bool.true_and, decide_eq_true_eq]
+  exact (five_decimal_delay_exact fs hfs k hk).1
+
+/-- non-vacuity of `delaySamplesF_decimal_nontie`: 0.00001 ms and 0.05208 ms (2.49984 samples, the
+five-decimal neighbour of the counterexample delay) at 48 kHz are not half samples -/
+example : (0 : ℤ) < 48000 ∧ 0 < 5208 ∧ (48000 : ℤ) * (5208 : ℕ) ≤ 10 ^ 14 ∧
+    ∀ m : ℤ, 2 * (48000 : ℤ) * (5208 : ℕ) ≠ 10 ^ 8 * (2 * m + 1) := by
+  refine ⟨by norm_num, by norm_num, by norm_num, fun m h => ?_⟩
+  norm_num at h; omega
+/-- instances of `five_decimal_delay_exact`: 0.03125 ms at 48 kHz (an exact tie, 1.5 samples) and
+0.05208 ms (no tie); the statement then says the code converts them like exact arithmetic -/
+example : delaySamplesF 48000 (rn53 ((3125 : ℕ) / 10 ^ 5)) = delaySamples 48000 ((3125 : ℕ) / 10 ^ 5) := by
+  have := five_decimal_delay_exact 48000 (Or.inr (Or.inl rfl)) 3125 (by norm_num)
+  rw [this.1, this.2]
+example : delaySamplesF 48000 (rn53 ((5208 : ℕ) / 10 ^ 5)) = 2 ∧ delaySamples 48000 ((5208 : ℕ) / 10 ^ 5) = 2 := by
+  decide +kernel
 
 end Earverif.TrackSpec
